@@ -271,16 +271,17 @@ def matcher_family(name, seed=1):
 # flat line indices, shared reservation maps, several securities) is model-checked to refine Cgt.tla for EVERY ORDER of
 # every selection of lines from a small alphabet, and its exact outcome is replayed into the code line order and all.
 
-def lines_cfg(maxlines=3, alpha='MC_AlphaAll', minlines=1, files=0, **_):
+def lines_cfg(maxlines=3, alpha='MC_AlphaAll', minlines=1, files=0, design=False, **_):
     return f'''SPECIFICATION Spec
 CONSTANTS
   DayNo <- {'MC_LDayNo8' if files else 'MC_LDayNo'}
   LSecs <- {'MC_LSecs3' if files else 'MC_LSecs'}
   FromFile = {'TRUE' if files else 'FALSE'}
+  FoldSellLines = {'TRUE' if design else 'FALSE'}
   MinLines = {minlines}
   MaxLines = {maxlines}
   AlphabetSel <- {alpha}
-INVARIANTS LinesRefine LinesRefuseUnabsorbable LBookkeeping EmitLines
+INVARIANTS LinesRefine LinesRefuseUnabsorbable LBookkeeping {'DesignLegsIdentical' if design else 'EmitLines'}
 CHECK_DEADLOCK FALSE
 '''
 
@@ -294,6 +295,9 @@ LINES_FAMILIES = {
     # TLC runs Lines on each, checks the refinement onto Cgt and hands its outcome to the replay
     'lines_files_q': dict(files=240),
     'lines_files_t': dict(files=3000),
+    # the specified repair of D14 (all same-day SELL lines of a security folded): model-checked only, nothing to replay --
+    # with it the legs are the same records as Cgt's for every order of the lines
+    'lines_design_q': dict(maxlines=3, alpha='MC_AlphaAll', design=True),
     'lines_t': dict(maxlines=4, alpha='MC_AlphaAll'),
     'lines5_t': dict(maxlines=5, alpha='MC_AlphaCore'),
 }
@@ -312,6 +316,10 @@ def lines_family(name, seed=1):
     m = tlc('MC_Lines', cfg, workers=8, timeout=3000, env=env)
     log(f'[tlc] MC_Lines/{name}: refinement Lines => Cgt held for every order of the lines on {m["states"]} distinct states, '
         f'{m["transitions"]} transitions, depth {m["depth"]} ({"cached" if m["cached"] else str(m["wall_s"]) + "s"})')
+    if fam.get('design'):
+        r = {'name': name, 'tlc': m, 'summary': {'records': 0, 'findings': 0, 'counters': {}, 'samples': []}, 'findings': [], 'obs': None}
+        _family_cache[name] = r
+        return r
     wd = workdir('cgt_' + name)
     out = os.path.join(wd, 'findings.ndjson')
     common.build_cli()
